@@ -39,6 +39,25 @@ def tags_of(x):
     return m.group(1).split(",") if m else []
 
 
+def shadow_after_cache(rng, n):
+    """a name is used from a node that is evaluated again later (function body, lambda, loop); between the two evaluations something that
+    takes precedence in the lookup order (locals, then globals, then functions) gets the same name. Not in the Lean model (it has no
+    `global`): decided by the engine with cached lookups on vs off."""
+    out = []
+    for k in range(n):
+        nm, v1, v2 = "nm%d" % k, rng.range(1, 50), rng.range(51, 99)
+        first = rng.choice(["def %s() { %d }" % (nm, v1), "def %s() { %d }; def %s(a) { a }" % (nm, v1, nm), "global %s = fun() { %d }" % (nm, v1)])
+        later = rng.choice(["global %s = fun() { %d }" % (nm, v2), "global %s = fun() { %d }" % (nm, v2), "def %s() { %d }" % (nm, v2) if first.startswith("global") else "global %s = fun() { %d }" % (nm, v2)])
+        use = rng.choice(["def ask%d() { %s() }; pr(ask%d()); %s; pr(ask%d()); pr(%s())" % (k, nm, k, later, k, nm),
+                          "var l%d = fun() { %s() }; pr(l%d()); %s; pr(l%d()); pr(%s())" % (k, nm, k, later, k, nm),
+                          "for (var i = 0; i < 3; ++i) { pr(%s()); if (i == 0) { %s } }; pr(%s())" % (nm, later, nm),
+                          "var i%d = 0; while (i%d < 3) { pr(%s()); if (i%d == 1) { %s }; ++i%d }" % (k, k, nm, k, later, k),
+                          "def ask%d() { %s() }; def twice%d() { pr(ask%d()); %s; pr(ask%d()) }; twice%d()" % (k, nm, k, k, later, k, k),
+                          "def ask%d() { var f = %s; f() }; pr(ask%d()); %s; pr(ask%d())" % (k, nm, k, later, k)])
+        out.append("%s; %s" % (first, use))
+    return out
+
+
 def run(ctx):
     status, text, rc = C.lean_obligations(ctx, ["C04"])
     have_driver = (rc == 0 and os.path.exists(C.driver_path())) or C.ensure_driver(ctx, [])
@@ -99,6 +118,7 @@ def run(ctx):
     p = os.path.join(C.VERIF, "corpus", "C04", "raw.txt")
     if os.path.exists(p):
         raw = [l.rstrip("\n") for l in open(p) if l.strip() and not l.startswith("#")]
+    raw += shadow_after_cache(rng, 120 if thorough else 40)
     if raw:
         r1, _ = C.run_harness_resilient(exe, [], ["1000000 std 1 opt %s" % t.encode().hex() for t in raw], timeout=300, mem_gb=6)
         r0, _ = C.run_harness_resilient(exe, [], ["1000000 std 0 opt %s" % t.encode().hex() for t in raw], timeout=300, mem_gb=6)
